@@ -299,15 +299,64 @@ class C14:
             break
         return runs
 
+    # ------------------------------------------------------------------------------------------
+    # hammer: many rounds of concurrent scanning with DIFFERENT inputs on scanners of one cache entry, and of
+    # barrier-released builds of one fresh configuration through both builders
+    HAMMER = {'quick': (2, 150, 150), 'thorough': (8, 600, 600)}      # jobs, scan rounds, build rounds
+
+    def hammer_jobs(self, rng, tier):
+        njobs, rounds, brounds = self.HAMMER.get(tier, self.HAMMER['quick'])
+        jobs = []
+        for k in range(njobs):
+            modes = [{'name': 'M', 'patterns': [{'p': 'a+', 't': 0}, {'p': 'b+', 't': 1}, {'p': ' +', 't': 2}, {'p': '-+', 't': 3},
+                                                  {'p': '\u00e4+', 't': 4}, {'p': '[c-z]+', 't': 5, 'la': {'pos': False, 'p': '!'}}],
+                      'transitions': []}]
+            if k % 2:
+                modes = [gen.gen_small_mode(rng, 'H0', ('a', 'b', 'c'), 4, 0.3)]
+            alph = ['a', 'b', ' ', '-', '\u00e4', 'c', 'x', 'z', '!']
+            inputs = []
+            for i in range(8):
+                # long runs of one character, different per thread: the threads ask different questions
+                inputs.append(''.join(alph[(i + j) % len(alph)] * rng.randint(20, 150) for j in range(rng.randint(6, 14))))
+            jobs.append({'kind': 'c14_hammer', 'modes': modes, 'inputs': inputs, 'threads': 8, 'rounds': rounds, 'build_rounds': brounds})
+        return jobs
+
+    def hammer_stage(self, jobs, rdir, out):
+        done = 0
+        for i, j in enumerate(jobs):
+            d = os.path.join(rdir, 'hammer_%02d' % i)
+            os.makedirs(d, exist_ok=True)
+            try:
+                r = run_harness([j], d, 'hammer', threads=1, timeout=600)[0]
+            except Exception as e:
+                out.violations.append({'property': 'C14', 'kind': 'hammer', 'what': 'the hammer run did not finish (deadlock or crash): %s' % str(e)[:300],
+                                       'hammer_job': j})
+                continue
+            if r.get('setup_error') or r.get('harness_panic'):
+                out.broken.append({'what': 'hammer job could not be set up', 'detail': r})
+                continue
+            done += 1
+            if r.get('problems'):
+                p0 = r['problems'][0]
+                what = ('a thread observed other tokens than the same scan made sequentially' if p0.get('phase') == 'scan' and 'got' in p0
+                        else 'a concurrent build of one fresh configuration panicked, failed or gave another scanner than the sequential build')
+                out.violations.append({'property': 'C14', 'kind': 'hammer', 'what': 'hammer: ' + what, 'problems': r['problems'][:5],
+                                       'hammer_job': j, 'note': 'replay runs the job again (scheduling dependent)'})
+        return done
+
     def explore(self, rng, tier, rdir, out, replay=None):
         self.miri_runs = []
+        self.hammer_done = 0
         if replay:
             payload = json.load(open(replay))
+            if payload.get('kind') == 'hammer':
+                self.hammer_done = self.hammer_stage([payload['hammer_job']] * 3, rdir, out)
             if payload.get('kind') == 'miri':
                 self.miri_runs = self.miri_stage([payload['miri_seed']], rdir, out, payload.get('threads', 4))
             scheds = [payload['schedule']] * self.REPEAT_REPLAY if 'schedule' in payload else []
         else:
             self.miri_runs = self.miri_stage(self.MIRI_SEEDS.get(tier, [1]), rdir, out)
+            self.hammer_done = self.hammer_stage(self.hammer_jobs(rng, tier), rdir, out)
             n = self.N.get(tier, 20)
             cands = [gen_candidates(rng) for _ in range(n)]
             # pre-pass (own process, uncached): which configurations build?
@@ -357,6 +406,7 @@ class C14:
                                            'schedule': scheds[si], 'model': pred, 'observed': observed})
         st = self.statistics(scheds, concs, seqs, model_agree)
         st['miri_runs'] = self.miri_runs
+        st['hammer_jobs'] = self.hammer_done
         st['miri_note'] = ('harness_miri under cargo +nightly miri run: 4 threads x 9 actions (cache hits, racing misses, failing builds, '
                            'shared-scanner scans, partially consumed iterators with set_mode), compared with the sequential run; '
                            'Miri checks data races and undefined behaviour on the executed schedule of each seed')
